@@ -112,7 +112,7 @@ pub fn run(ctx: &Ctx) -> Outcome {
     hook::install();
     let mut shapes = std::collections::BTreeSet::new();
     let mut st = SeqStats::default();
-    let modes = [CONSTANT, SAMEBIN, MIXED, SPLITTING];
+    let modes = CROWDED_MODES;
     let max_n: u64 = ctx.q(140, 400);
     let mut idx = 0u64;
     let mut fail: Option<(String, SeqFailure, Json)> = None;
